@@ -305,6 +305,17 @@ func runScripts(f lib.Flags, res *lib.Result, w *world, drv *lib.Driver) {
 		}
 	}
 	runStress(f, w, mon)
+	runResponseThenError(w, mon)
+	runTrailerAfterAbort(w, mon)
+	var pool []scase
+	for i, c := range cases {
+		if drv != nil && wf[i] == "true" && !strings.ContainsAny(c.Cli, "xd") && c.Amp == 0 {
+			pool = append(pool, c)
+		}
+	}
+	if len(pool) > 0 {
+		runAsync(f, res, w, drv, pool)
+	}
 	if drv == nil {
 		tieW.Fail(fmt.Errorf("no Lean driver given"))
 		tieG.Fail(fmt.Errorf("no Lean driver given"))
